@@ -14,6 +14,8 @@ B  EncoderTrace: seeded long op sequences (lengths 0 .. 512 KiB, arbitrary scrat
 import concurrent.futures
 import json
 import os
+import resource
+import time
 
 import vlib
 
@@ -52,6 +54,24 @@ def build(name):
                  and info.get("cgo") == b["cgo"],
                  "build %s does not have the expected encoder implementations: %s" % (name, info))
     return vh
+
+
+class Phases:
+    """Wall clock and CPU (of child processes: TLC, harness) per phase of a check, recorded in the evidence."""
+
+    def __init__(self, run):
+        self.run, self.t, self.c, self.name = run, time.time(), self._cpu(), None
+        run.cov["phases"] = []
+
+    @staticmethod
+    def _cpu():
+        r = resource.getrusage(resource.RUSAGE_CHILDREN)
+        return r.ru_utime + r.ru_stime
+
+    def mark(self, name):
+        now, cpu = time.time(), self._cpu()
+        self.run.cov["phases"].append({"phase": name, "wall_s": round(now - self.t, 1), "cpu_s": round(cpu - self.c, 1)})
+        self.t, self.c = now, cpu
 
 
 def parallel(fn, items, workers=WORKERS):
@@ -231,7 +251,9 @@ def main():
     run = vlib.Run("C07", "exploration")
     thorough = run.tier == "thorough"
     bnames = ["cgo", "nocgo"] + (["noliblz4", "nolibzstd"] if thorough else [])
+    ph = Phases(run)
     vhs = {b: build(b) for b in bnames}
+    ph.mark("build")
     with vlib.Scratch("verif-c07-") as sc:
         # ---- M
         r = vlib.tlc("codec", "EncoderMC", "EncoderMC.cfg", coverage=True, scratch=sc, timeout=900, consts="CONSTANT MaxOps = 4")
@@ -246,10 +268,13 @@ def main():
                      "negative control: the appending design was not rejected by the model (%s)" % (n.violation or n.error))
         run.cov["negative_control_model"] = 'ScratchMode="append" violates %s' % n.violation
 
+        ph.mark("M")
         # ---- F
         sets = gen_behaviours(run, sc, thorough)
+        ph.mark("F generate")
         tasks = replay_tasks(run, sets, bnames, thorough)
         results = parallel(lambda *t: run_replay(vhs, run.seed, t, sc), tasks)
+        ph.mark("F replay (%d tasks)" % len(tasks))
         fails = {}      # descriptor -> [count, first failure]
         drift = {}
         per_cfg = {}
@@ -308,6 +333,7 @@ def main():
             vlib.require(any(o["id"] == 17 for o in bad), "negative control: corrupted expectation was not rejected (F)")
             run.cov["negative_control_replay"] = "behaviour 17 with corrupted expected frame rejected"
 
+        ph.mark("F negative control")
         # ---- B
         ntr, nops = (40, 120) if thorough else (8, 50)
         dtasks = [(b, t) for b in bnames for t in ("lz4", "zstd", "null")
@@ -339,6 +365,7 @@ def main():
             return evs
         events = [e for outs in parallel(drive, dtasks) for e in outs]
         vlib.require(len(events) > 100, "driver produced no events")
+        ph.mark("B drive")
         tfile = os.path.join(sc, "trace.ndjson")
         with open(tfile, "w") as fh:
             fh.write("\n".join(json.dumps(e, separators=(",", ":")) for e in events) + "\n")
@@ -399,6 +426,7 @@ def main():
                       files={"trace.ndjson": "\n".join(json.dumps(e, separators=(",", ":")) for e in badev) + "\n"})
         vlib.require(any(mm.get("line") == okline + 1 for mm in nt.mismatches), "negative control: corrupted trace event was accepted (B)")
         run.cov["negative_control_trace"] = "event %d with corrupted returned count rejected" % (okline + 1)
+        ph.mark("B validate + negative control")
 
     run.cov["rule"] = ("F: every op sequence of depth 2 over 9 data classes x 5 scratch shapes x 2 decompress shapes x level changes x Close "
                        "on every type x build; Compress;Decompress / Compress;Close / SetLevel;Compress on every level of the grid "
